@@ -646,13 +646,15 @@ def nesting(run: Run, model: PyModel, I: Interp, specs: Specs) -> None:
             counter[0] += 1
             mark = f"P{counter[0] % 10}-{counter[0] % 9 + 1}"  # a distinctive priority set per and_filter
             k = counter[0]
-            atoms = [specs.ctx("where_atom", None, priority_range=specs.ctx("priority_range", f"P{k % 10}"))]
+            # in the second pass an and-filter that holds groups holds NOTHING else (`(a | b) (c | d)`: no plain atom next to the groups)
+            plain = not (bare[0] and and_shape)
+            atoms = [specs.ctx("where_atom", None, priority_range=specs.ctx("priority_range", f"P{k % 10}"))] if plain else []
             atoms += [specs.ctx("where_atom", None, subfilter=specs.ctx("subfilter", None)) for _ in and_shape]
             ctx = specs.ctx("and_filter", None, where_atom=atoms)
             marks.append((k, f"P{k % 10}"))
             r = _call(I, model, "enterAnd_filter", comp, ctx, st)
             assert len(r) == 1 and not isinstance(r[0][0], Raised), r
-            node = (k, [])
+            node = (k if plain else None, [])
             expected.append(node)
             for sub in and_shape:
                 r = _call(I, model, "enterSubfilter", comp, specs.ctx("subfilter", None), st)
@@ -675,7 +677,11 @@ def nesting(run: Run, model: PyModel, I: Interp, specs: Specs) -> None:
         return out
 
     total = 0
-    for shape in shapes:
+    bare = [False]
+    two = [[], []]
+    extra = [[[two, two]], [[], [two, two]], [[two, [[]], two]], [[two, two, two]], [[[[two, two]]]]]  # (a|b)(c|d) ; x | (a|b)(c|d) ; (a|b)(c)(d|e) ; three groups ; ((a|b)(c|d))
+    for shape, is_bare in [(sh, False) for sh in shapes + extra] + [(sh, True) for sh in shapes + extra if any(a for a in sh)]:
+        bare[0] = is_bare
         total += 1
         st = State()
         comp, q = _new_compiler(I, model, st)
@@ -702,14 +708,35 @@ def nesting(run: Run, model: PyModel, I: Interp, specs: Specs) -> None:
         def marks_of(t):
             return [(pr, [marks_of(s) for s in subs]) for (pr, subs, _) in t]
         def marks_e(t):
-            return [((f"P{k % 10}",), [marks_e(s) for s in subs]) for (k, subs) in t]
-        if strip(got) == strip_e(expected) and marks_of(got) == marks_e(expected):
+            return [(((f"P{k % 10}",) if k is not None else ()), [marks_e(s) for s in subs]) for (k, subs) in t]
+        def canon(t):
+            """Semantic normal form of an OR of conjunctions [(marks, [sub ORs])]: a group with a single alternative is part of its conjunction; a conjunction that is nothing
+            but one group IS that group's alternatives (redundant parentheses denote the same filter)."""
+            out = []
+            for mk, subs in t:
+                mk, rest = tuple(mk), []
+                for sub in (canon(x) for x in subs):
+                    if len(sub) == 1:
+                        mk, rest = mk + sub[0][0], rest + sub[0][1]
+                    else:
+                        rest.append(sub)
+                if not mk and len(rest) == 1:
+                    out.extend(rest[0])
+                else:
+                    out.append((tuple(sorted(mk)), rest))
+            return out
+
+        if is_bare:
+            same = canon(marks_of(got)) == canon(marks_e(expected))
+        else:
+            same = strip(got) == strip_e(expected) and marks_of(got) == marks_e(expected)
+        if same:
             n_ok += 1
         else:
-            first_bad = first_bad or (shape, f"compiled {marks_of(got)} expected {marks_e(expected)}")
-    run.floor("nesting derivations explored", total, 30)
+            first_bad = first_bad or ((shape, "groups only" if is_bare else "with atoms"), f"compiled {marks_of(got)} expected {marks_e(expected)}")
+    run.floor("nesting derivations explored", total, 60)
     run.check("C04.R5", f"compiled filter tree equals the derivation's nesting on all {total} shapes (depth <= 3)", n_ok == total, "ZorgQueryCompiler",
               f"shape {first_bad[0] if first_bad else ''}"[:120],
               f"for the parenthesisation shape {first_bad[0] if first_bad else ''} the listener builds: {first_bad[1] if first_bad else ''}"[:600]
-              + " -- a parenthesised group is attached to the wrong and-filter (sub-filter stack push/pop imbalance)", file=FILE, detail=dict(ok=n_ok, total=total))
+              + " -- a parenthesised group is attached to the wrong and-filter (sub-filter stack push/pop imbalance, or groups that stand alone in a conjunction are merged into it)", file=FILE, detail=dict(ok=n_ok, total=total))
     run.sample(dict(rule="C04.R5", shapes=total, ok=n_ok, example=str(shapes[5])))
